@@ -5,7 +5,7 @@ light-weight PGPKey subclasses whose fingerprint, creation time, key half, user 
 import collections
 import warnings
 
-from vlib.h import ob
+from vlib.h import ob, native
 from pgpy import PGPKey, PGPKeyring
 from pgpy.types import Fingerprint
 
@@ -124,7 +124,25 @@ def consistent(kr, keys, loaded):
     return True
 
 
+def _conc(sym, values):
+    for v in values:
+        if sym == v:
+            return v
+    return values[0]
+
+
 def run_history(u, ops, c0, c1, c2, half):
+    """every choice is made concrete per path (operations, creation order, which half is public), then the history runs natively: sorting with
+    symbolic keys inside the keyring went through CrossHair's model of sorted(), which produced two non-reproducing counterexamples in the thorough tier"""
+    u = _conc(u, (0, 1, 2, 3))
+    ops = [_conc(o, (0, 1, 2, 3, 4, 5, 6, 9)) for o in ops]
+    c0, c1, c2 = _conc(c0, (0, 1, 2)), _conc(c1, (0, 1, 2)), _conc(c2, (0, 1, 2))
+    half = True if half else False
+    with native():
+        return _run_history(u, ops, c0, c1, c2, half)
+
+
+def _run_history(u, ops, c0, c1, c2, half):
     keys = universe(u, c0, c1, c2, half)
     kr = PGPKeyring()
     loaded = []
@@ -231,7 +249,6 @@ def hist_pair5(u: int, a: int, b: int, c: int, c0: int, c1: int) -> bool:
 
 
 # ------------------------------------------------------------------------------------ O19.3 real keys loaded from octets
-from vlib.h import native
 from harness import sigfix as _sf
 
 RK = _sf.new_key('real one <r@x>', sub=True)
